@@ -89,7 +89,7 @@ theorem nosign_num (c : Nat) (r : Bytes) (hc : c = 43 ∨ c = 45) : fol .int (c 
 /-- a literal-class token (`w` is its spelling, starting with a byte an expression can start with) -/
 theorem WInv.lit {cw cw' : CW} {ks fc} (h : WInv cw ks fc) {d : Bool} (hs : StartOKd d fc) (k : Key) (c : Nat) (w : Bytes) (fk : Bytes → Bool)
     (hf : Fields cw cw' (c :: w)) (hsb : startByte c = true) (hd : isDigit c = true → d = true)
-    (htok : ∀ r, fk r = true → ∀ s : LS, s.rest = (c :: w) ++ r → key3 (nextToken s) = (k, r)) (hk : k.1 ≠ .eof)
+    (htok : ∀ r, fk r = true → ∀ s : LS, s.rest = (c :: w) ++ r → key3 (nextToken s) = (k, r, false, [])) (hk : k.1 ≠ .eof)
     (hnosign : ∀ c r, (c = 43 ∨ c = 45) → fk (c :: r) = true) : WInv cw' (ks ++ [k]) fk :=
   h.token (c :: w) k fk hf (by simp) htok hk (fun r _ => hs _ (by simpa using hsb) (by simpa using hd))
     (fun c r hc hfk => by rw [hnosign c r hc] at hfk; cases hfk)
